@@ -74,6 +74,13 @@ pub fn configs(th: bool) -> Vec<Cfg> {
     if th {
         v.push(mk(32, 3, 0x82, 0x5, 5, "m32-3f-active2-nib5"));
     }
+    // storage that cuts transfers at its own 7-byte block boundaries: the FAT copies start at different offsets
+    // modulo 7, so a FAT word that is written in one piece in one copy is split in another
+    for (width, nfats) in [(12u8, 2u32), (16, 2), (32, 2), (12, 3)] {
+        let mut c = mk(width, nfats, 0, 0, 5, &format!("m{width}-{nfats}f-blk7"));
+        c.short = harness::dev::Short::Block(7);
+        v.push(c);
+    }
     v
 }
 
@@ -91,5 +98,17 @@ pub fn checker(cfgs: &[Cfg]) -> C10 {
 
 pub fn specs(tier: &str) -> Vec<ExpSpec> {
     let th = is_thorough(tier);
-    configs(th).into_iter().map(|c| ExpSpec::new(c, alpha::mixed(512), if th { 6 } else { 4 })).collect()
+    configs(th)
+        .into_iter()
+        .map(|c| {
+            let d = if th {
+                6
+            } else if c.name.starts_with("m12") {
+                4
+            } else {
+                3
+            };
+            ExpSpec::new(c, alpha::mixed(512), d)
+        })
+        .collect()
 }
